@@ -785,13 +785,19 @@ fn run(args: &[String]) -> i32 {
         for (ci, c) in carriers.iter().enumerate() {
             let idx = corpus.len() + ci;
             if c.muts.is_empty() { continue; }
-            let r = run_sweep(&mut kid, idx, c, Duration::from_millis(limit_ms));
+            let mut r = run_sweep(&mut kid, idx, c, Duration::from_millis(limit_ms));
             let n = c.muts.len();
+            // a slow unmodified sample gets a second chance (the machine is shared): the faster run counts
+            if c.mode == "sample" && r.fails.is_empty() && r.max_us > 300_000 + 3 * c.data.len() as u128 {
+                stats.inc("sweep:sample:retried");
+                let r2 = run_sweep(&mut kid, idx, c, Duration::from_millis(limit_ms));
+                if !r2.fails.is_empty() || r2.max_us < r.max_us { r = r2; }
+            }
             stats.add(&format!("sweep:{}:mutations", c.mode), n as u64);
             stats.inc(&format!("sweep:{}:carriers", c.mode));
             if c.mode != "sample" { stats.add(&format!("sweep:format:{}", c.fmt), n as u64); }
             // the repository samples themselves: a tighter bound than for arbitrary bytes
-            let bound_us: u128 = if c.mode == "sample" { 2_000_000 + 20 * c.data.len() as u128 } else { 4_000_000 + 60 * c.data.len() as u128 };
+            let bound_us: u128 = if c.mode == "sample" { 300_000 + 3 * c.data.len() as u128 } else { 4_000_000 + 60 * c.data.len() as u128 };
             let bound_kb: u64 = 256 * 1024 + (256 * c.data.len() as u64) / 1024;
             let mut fails = r.fails.clone();
             if fails.is_empty() && r.max_us > bound_us { fails.push((0, "slow".into(), format!("{}", r.max_us))); }
